@@ -75,8 +75,12 @@ class Run:
         undecided = [o for o in self.obligations if o["verdict"] == "undecided"]
         for rule, mn in self.rule_minimums.items():
             got = self.rule_counts.get(rule, 0)
-            if got < mn:
-                self.errors.append(f"rule {rule}: {got} instances analysed, fewer than the confirmed minimum {mn} (vacuity guard)")
+            # vacuity guard: a rule that matches (almost) nothing passes vacuously.  A change under review may legitimately
+            # remove a few instances (one call site inlined, one branch merged), so the guard trips below 3/4 of the
+            # hand-confirmed count, not at the first missing instance.
+            floor = max(1, (3 * mn) // 4)
+            if got < floor:
+                self.errors.append(f"rule {rule}: {got} instances analysed, fewer than 3/4 of the confirmed count {mn} (vacuity guard)")
         if self.only_key is not None:
             violations = [o for o in violations if o["key"] == self.only_key]
         new_v, known_v = [], []
